@@ -469,6 +469,21 @@ func (e *SpecEnv) evalCall(x *ast.CallExpr) Term {
 		}
 	}
 	switch id.Name {
+	case "g":
+		// g(name, ref): value of a declared ghost heap at ref
+		name := arg(0).(*ast.Ident).Name
+		ref := e.eval(arg(1))
+		return vc.ghostLoad(e.st, name, ref.S, e.pkg)
+	case "held":
+		hn, ref := e.lockTarget(arg(0))
+		h := vc.heapGet(e.st, hn, "(Array Int Int)", nil)
+		return intTerm(sel(h.S, ref))
+	case "refof":
+		v := e.eval(arg(0))
+		if v.Sort == "Iface" {
+			return intTerm("(ipay " + v.S + ")")
+		}
+		return intTerm(v.S)
 	case "islit":
 		// islit(f, N): f is the N-th function literal of the function under contract
 		f := e.eval(arg(0))
@@ -547,6 +562,10 @@ func (e *SpecEnv) evalCall(x *ast.CallExpr) Term {
 			ao = e.old.alloc
 		}
 		return boolTerm(fmt.Sprintf("(and (<= %s %s) (< %s %s))", ao, v.S, v.S, e.st.alloc))
+	case "callerfresh":
+		// the object was allocated by the function under verification in this activation
+		v := e.eval(arg(0))
+		return boolTerm("(>= " + v.S + " alloc@0)")
 	case "allocated":
 		v := e.eval(arg(0))
 		return boolTerm(fmt.Sprintf("(and (< 0 %s) (< %s %s))", v.S, v.S, e.st.alloc))
@@ -628,7 +647,7 @@ func (e *SpecEnv) evalCall(x *ast.CallExpr) Term {
 		return vc.ghostArrayTerm(vc.mapDom(e.st, mi, m.S), &ghostType{K: mi.K, V: types.Typ[types.Bool]})
 	case "strlt":
 		a, b := e.eval(arg(0)), e.eval(arg(1))
-		return boolTerm("(str.lt " + a.S + " " + b.S + ")")
+		return boolTerm("(s.lt " + a.S + " " + b.S + ")")
 	case "hasprefix":
 		a, b := e.eval(arg(0)), e.eval(arg(1))
 		return boolTerm(vc.strHasPrefix(a.S, b.S))
@@ -850,17 +869,17 @@ func (vc *VC) seqEq(a, b Term) string {
 }
 
 func (vc *VC) strHasPrefix(s, p string) string {
-	return fmt.Sprintf("(and (<= (str.len %s) (str.len %s)) (forall ((i!p Int)) (=> (and (<= 0 i!p) (< i!p (str.len %s))) (= (str.at %s i!p) (str.at %s i!p)))))", p, s, p, s, p)
+	return fmt.Sprintf("(and (<= (s.len %s) (s.len %s)) (forall ((i!p Int)) (=> (and (<= 0 i!p) (< i!p (s.len %s))) (= (s.at %s i!p) (s.at %s i!p)))))", p, s, p, s, p)
 }
 
 // sliceOf: x[lo:hi] for slices and strings (fresh symbol with defining facts).
 func (vc *VC) sliceOf(st *State, x Term, lo, hi Term) Term {
 	if isString(x.T) {
-		r := vc.mk("(str.sub "+x.S+" "+lo.S+" "+hi.S+")", x.T)
-		st.assume(fmt.Sprintf("(= (str.len %s) (- %s %s))", r.S, hi.S, lo.S))
-		st.assume(fmt.Sprintf("(forall ((i!u Int)) (! (=> (and (<= 0 i!u) (< i!u (- %s %s))) (= (str.at %s i!u) (str.at %s (+ i!u %s)))) :pattern ((str.at %s i!u))))", hi.S, lo.S, r.S, x.S, lo.S, r.S))
+		r := vc.mk("(s.sub "+x.S+" "+lo.S+" "+hi.S+")", x.T)
+		st.assume(fmt.Sprintf("(= (s.len %s) (- %s %s))", r.S, hi.S, lo.S))
+		st.assume(fmt.Sprintf("(forall ((i!u Int)) (! (=> (and (<= 0 i!u) (< i!u (- %s %s))) (= (s.at %s i!u) (s.at %s (+ i!u %s)))) :pattern ((s.at %s i!u))))", hi.S, lo.S, r.S, x.S, lo.S, r.S))
 		if lo.S == "0" {
-			st.assume(imp(eq(hi.S, "(str.len "+x.S+")"), eq(r.S, x.S)))
+			st.assume(imp(eq(hi.S, "(s.len "+x.S+")"), eq(r.S, x.S)))
 		}
 		return r
 	}
@@ -912,4 +931,33 @@ func (e *SpecEnv) applyFuncTerm(f Term, args []Term, at ast.Expr) Term {
 	name := fmt.Sprintf("apply0$%s$%s", sanitize(strings.Join(sorts, "_")), sanitize(rs))
 	vc.u.declFun(name, "("+strings.Join(sorts, " ")+") "+rs)
 	return vc.mk("("+name+" "+strings.Join(as, " ")+")", rt)
+}
+
+// ghost heaps declared with `ghost name T`
+func (vc *VC) ghostHeap(name string, pkg *types.Package) (hname, hsort string, t types.Type, g *ghostType) {
+	d, ok := vc.p.con.Ghosts[name]
+	if !ok {
+		panic(unsupported("spec: undeclared ghost heap " + name))
+	}
+	dpkg := pkg
+	if pk, ok := vc.p.pkgs[d.Pkg]; ok {
+		dpkg = pk.Types
+	}
+	t, g = vc.resolveType(d.Type, dpkg)
+	var vs string
+	if g != nil {
+		vs = vc.ghostArrayTerm("", g).Sort
+	} else {
+		vs = vc.u.SortOf(t)
+	}
+	return "G$" + name, "(Array Int " + vs + ")", t, g
+}
+
+func (vc *VC) ghostLoad(st *State, name, ref string, pkg *types.Package) Term {
+	hn, hs, t, g := vc.ghostHeap(name, pkg)
+	h := vc.heapGet(st, hn, hs, nil)
+	if g != nil {
+		return vc.ghostArrayTerm(sel(h.S, ref), g)
+	}
+	return vc.mk(sel(h.S, ref), t)
 }
